@@ -161,6 +161,23 @@ def reports(rnd, chan_slots):
     return out
 
 
+def remote_output(rnd):
+    """what qmail-remote prints: recipient reports (r / h / s + text + NUL) then a message report (K / Z / D + text + NUL)"""
+    out = b""
+    for _ in range(rnd.randint(0, 4)):
+        out += rnd.choice([b"r", b"h10.0.0.1 does not like recipient.\nRemote host said: 550 no\n", b"s10.0.0.1 does not like recipient.\n", b"x", b""]) + b"\0"
+    out += rnd.choice([b"K10.0.0.1 accepted message.\nRemote host said: 250 ok\n", b"ZConnected but greeting failed.\n", b"DGiving up.\n", b"K", b"Q?", b""])
+    if rnd.random() < 0.7:
+        out += b"\0"
+    if rnd.random() < 0.2:
+        out += rnd.choice([b"Ktrailing", b"\0\0", b"D\0Z\0"])
+    return out
+
+
+def local_output(rnd):
+    return rnd.choice([b"did 1+0+0\n", b"", b"Sorry, no mailbox here by that name. (#5.1.1)\n", b"text\0after nul", b"x" * 900, b"\xff\n\n"])
+
+
 def control_file(rnd):
     lines = []
     for _ in range(rnd.randint(0, 8)):
@@ -455,6 +472,12 @@ def extremes(target):
         keys = bytes([3]) + b"".join(bytes([len(k)]) + k for k in (CDB_KEYS[0], CDB_KEYS[7], b"absent"))
         E += [keys + db[:i] for i in range(0, len(db) + 1, 8)]                 # truncation at every 8-byte boundary
         E += [keys + db[:i] + bytes([db[i] ^ 0xff]) + db[i + 1:] for i in range(0, 2048, 4)]   # every header word damaged
+    elif target == "rspawn-report":
+        E += [b"", b"r", b"K", b"rK", b"r\0", b"r\0K", b"r\0Kok", b"r\0Kok\0", b"h\0Z", b"s\0D\0", b"r\0r\0r\0K", b"\0", b"\0\0", b"\0K", b"x" * 100000,
+              b"r\0" * 30000 + b"Kok\0", b"K" + b"y" * 100000 + b"\0"]
+        E += truncations(b"r\0h10.0.0.1 does not like recipient.\nRemote host said: 550 no\n\0K10.0.0.1 accepted message.\n\0")
+    elif target == "lspawn-report":
+        E += [b"", b"\0", b"x", b"x\0y", b"z" * 100000]
     elif target == "control":
         E += [b"x" * 1000000, b"\n" * 100000, b"a:b\n" * 50000, b"#" * 100000 + b"\n", b" \t" * 50000, b"9" * 100000, b"\0" * 10000]
     return E
